@@ -1,6 +1,7 @@
 package meta
 
 import (
+	"bytes"
 	"regexp/syntax"
 
 	"github.com/coregx/coregex/literal"
@@ -596,6 +597,27 @@ func hasDotStarPrefix(re *syntax.Regexp) bool {
 	// .* = OpStar(OpAnyChar or OpAnyCharNotNL)
 	return first.Op == syntax.OpStar && len(first.Sub) > 0 &&
 		(first.Sub[0].Op == syntax.OpAnyChar || first.Sub[0].Op == syntax.OpAnyCharNotNL)
+}
+
+// isDotStarLiteral checks if a pattern is exactly `.*literal` (greedy `.` that does not
+// match \n, case-sensitive literal without \n equal to the extracted suffix). Only for this shape is
+// the match known without running an automaton: it spans from the start of the line to
+// the last occurrence of the literal on that line (ReverseSuffix matchStartZero path).
+// Anything between `.*` and the suffix (`.*x\d+\.txt`) or `(?s).*` needs the reverse DFA.
+func isDotStarLiteral(re *syntax.Regexp, suffix []byte) bool {
+	for re.Op == syntax.OpCapture && len(re.Sub) > 0 {
+		re = re.Sub[0]
+	}
+	if !hasDotStarPrefix(re) || len(re.Sub) != 2 {
+		return false
+	}
+	star, lit := re.Sub[0], re.Sub[1]
+	for star.Op == syntax.OpCapture {
+		star = star.Sub[0]
+	}
+	return star.Flags&syntax.NonGreedy == 0 && star.Sub[0].Op == syntax.OpAnyCharNotNL &&
+		lit.Op == syntax.OpLiteral && lit.Flags&syntax.FoldCase == 0 &&
+		string(lit.Rune) == string(suffix) && bytes.IndexByte(suffix, '\n') < 0
 }
 
 // isWildcardSubexpression checks if a subexpression acts as a "wildcard" that can
